@@ -1,6 +1,7 @@
 import Holpy.C13.Proofs
 import Holpy.C13.Goal
 import Holpy.C13.Numbering
+import Holpy.C13.Remove
 /-
 C13 — property theorems about the structural model of Holpy/C13/Model.lean (numbering and
 citations of a proof state under the editing operations).  What is proved is the *citation* half
@@ -77,6 +78,23 @@ theorem remove_line_preserves_numbering_partial (s s' : Proof) (id : IId) (cur :
     (h : removeLine s id = .ok s') : numberedFrom [] 0 s' = true :=
   numbered_removeLine s s' id cur hw hex h
 
+/-- `remove_line(id)` of an existing line that no line of its proof (subproofs included) cites
+preserves well-formedness (lines of other proofs cannot cite it: `wf_citation_resolves`). -/
+theorem remove_line_preserves_wf (s s' : Proof) (id : IId) (cur : Item) (hw : wf s = true)
+    (hex : findItem s id = some cur)
+    (hnc : ∀ l, getAt id.dropLast s = some l → notCitedList id l = true)
+    (h : removeLine s id = .ok s') : wf s' = true := by
+  rw [wf_iff] at hw ⊢
+  exact ⟨numbered_removeLine s s' id cur hw.1 hex h, citesOk_removeLine s s' id hw.2.1 hnc h,
+    subOk_removeLine s s' id hw.2.2 h⟩
+
+/-- `replace_id(old, new)`: re-pointing the citations of an existing line `old` to a line `new`
+visible from it (what `find_goal` returns) and removing `old` preserves well-formedness. -/
+theorem replace_id_preserves_wf (s s' : Proof) (old new : IId) (cur : Item) (hw : wf s = true)
+    (hex : findItem s old = some cur) (hvis : canDependOn old new = true)
+    (h : replaceId s old new = .ok s') : wf s' = true :=
+  wf_replaceId s s' old new cur hw hex hvis h
+
 /-- In a well-formed state every citation of every line resolves: the line found at position `q`
 carries id `q`, each of its citations `p` satisfies `can_depend_on(q, p)` and a line exists at `p`
 (an earlier line of the same proof or of an enclosing one). -/
@@ -92,19 +110,23 @@ theorem wf_citation_resolves (s : Proof) (q : IId) (it : Item) (hw : wf s = true
 
 /-- Preconditions under which `edits_preserve_wf_partial` covers an operation: insertion before an
 existing line; a line set with citations that satisfy `can_depend_on` (what `apply_method` asserts
-of the selected facts). -/
+of the selected facts); removal of an existing line that no line of its proof cites; replacement of
+an existing line by a line visible from it (what `find_goal` returns). -/
 def wfSafe (s : Proof) : Op → Prop
   | .addLineBefore id _ => ∃ cur, findItem s id = some cur
   | .setLine id _ p _ => ∀ x ∈ p, canDependOn id x = true
-  | _ => False
+  | .removeLine id => (∃ cur, findItem s id = some cur) ∧
+      ∀ l, getAt id.dropLast s = some l → notCitedList id l = true
+  | .replaceId old new => (∃ cur, findItem s old = some cur) ∧ canDependOn old new = true
+  | .applyTactic _ _ => False
 
 def wfSafeRun : Proof → List Op → Prop
   | _, [] => True
   | s, op :: ops => wfSafe s op ∧ ∀ s1, step s op = .ok s1 → wfSafeRun s1 ops
 
-/-- Every completed sequence of `add_line_before` / `set_line` calls that meet `wfSafe` keeps the
-state well-formed (numbering and citations).  Partial: `remove_line`, `replace_id` and
-`apply_tactic` are not covered by the sequence theorem. -/
+/-- Every completed sequence of `add_line_before` / `set_line` / `remove_line` / `replace_id` calls
+that meet `wfSafe` keeps the state well-formed (numbering and citations).  Partial: `apply_tactic`
+as a composite (that its inner calls meet `wfSafe`) is not covered. -/
 theorem edits_preserve_wf_partial : ∀ (ops : List Op) (s s' : Proof), wf s = true →
     wfSafeRun s ops → run s ops = .ok s' → wf s' = true
   | [], s, s', hw, _, h => by simp [run] at h; subst h; exact hw
@@ -119,8 +141,12 @@ theorem edits_preserve_wf_partial : ∀ (ops : List Op) (s s' : Proof), wf s = t
           obtain ⟨cur, hc⟩ := hop
           exact add_line_preserves_wf s s1 id n cur hw hc h1
         | setLine id r p th => exact set_line_preserves_wf s s1 id r p th hw hop h1
-        | removeLine id => exact absurd hop (by simp [wfSafe])
-        | replaceId o n => exact absurd hop (by simp [wfSafe])
+        | removeLine id =>
+          obtain ⟨⟨cur, hc⟩, hnc⟩ := hop
+          exact remove_line_preserves_wf s s1 id cur hw hc hnc h1
+        | replaceId o n =>
+          obtain ⟨⟨cur, hc⟩, hv⟩ := hop
+          exact replace_id_preserves_wf s s1 o n cur hw hc hv h1
         | applyTactic id new => exact absurd hop (by simp [wfSafe])
       exact edits_preserve_wf_partial ops s1 s' hw1 (hs.2 s1 h1) h
     · simp at h
@@ -211,6 +237,10 @@ example : wfSafeRun s1 [.addLineBefore [1] 1, .setLine [1] 6 [[0]] (some ⟨9, [
   simp at hx
   subst hx
   decide
+
+example : (match replaceId s1 [0, 1] [0, 0] with
+    | .ok s' => wf s' && s'.length == 2 && canDependOn [0, 1] [0, 0]
+    | .error _ => false) = true := by decide
 
 example : ∃ it, findItem s1 [0, 2] = some it ∧ it.prevs = [[0, 0], [0, 1]] := ⟨_, rfl, rfl⟩
 
